@@ -835,6 +835,18 @@ mod fmtscan {
                 self.stack.pop();
             }
         }
+        fn visit_block(&mut self, b: &'ast ast::Block) {
+            if let ast::BlockCheckMode::Unsafe(ast::UnsafeSource::UserProvided) = b.rules {
+                let lo = self.sm.lookup_char_pos(b.span.lo());
+                let exp = b.span.from_expansion();
+                let mut s = String::new();
+                s.push_str("{\"k\":\"unsafe\",\"path\":");
+                s.push_str(&super::js(&self.stack.join("::")));
+                s.push_str(&format!(",\"line\":{},\"exp\":{}}}", lo.line, exp));
+                self.out.push(s);
+            }
+            visit::walk_block(self, b);
+        }
         fn visit_field_def(&mut self, f: &'ast ast::FieldDef) {
             for a in f.attrs.iter() {
                 if let ast::AttrKind::Normal(n) = &a.kind {
@@ -855,6 +867,27 @@ mod fmtscan {
         }
         fn visit_expr(&mut self, e: &'ast ast::Expr) {
             if let ast::ExprKind::FormatArgs(fa) = &e.kind {
+                let mut lits: Vec<String> = Vec::new();
+                for piece in fa.template.iter() {
+                    if let ast::FormatArgsPiece::Literal(sym) = piece {
+                        lits.push(sym.to_string());
+                    }
+                }
+                if !lits.is_empty() {
+                    let lo = self.sm.lookup_char_pos(e.span.source_callsite().lo());
+                    let mut s = String::new();
+                    s.push_str("{\"k\":\"fmtlit\",\"path\":");
+                    s.push_str(&super::js(&self.stack.join("::")));
+                    s.push_str(",\"lits\":[");
+                    for (i, l) in lits.iter().enumerate() {
+                        if i > 0 {
+                            s.push(',');
+                        }
+                        s.push_str(&super::js(l));
+                    }
+                    s.push_str(&format!("],\"line\":{}}}", lo.line));
+                    self.out.push(s);
+                }
                 for piece in fa.template.iter() {
                     if let ast::FormatArgsPiece::Placeholder(ph) = piece {
                         let o = &ph.format_options;
